@@ -130,8 +130,9 @@ def check_property(pid, tier, seed, args, t0):
             if cur_ctx.get(m) != base_ctx['modules'].get(m):
                 context_changed.append(m)
 
+    # a known finding of a property that supports this one (cli.SUPPORTS) is the same finding here
     known = [k for k in CLI.load_json(CLI.KNOWN, {'findings': []}).get('findings', [])
-             if k.get('property') == pid]
+             if k.get('property') == pid or k.get('property') in CLI.SUPPORTS.get(pid, ())]
     open_known = {k['obligation']: k for k in known if k.get('status') == 'open'}
 
     # functions that could not be analysed: their expected labels are missing -> undecided
